@@ -208,6 +208,15 @@ def check_case(case):
             if s in strings:
                 continue
             strings.append(s)
+            # the denotation of a string depends on the string and on the context it is given, not on what was parsed before:
+            # the same text is parsed first without a context and with another ppi (errors of those parses are not this clause's)
+            for kw0 in ({}, {"ppi": 72.0}):
+                try:
+                    svg.Matrix(s, **kw0)
+                except engine.CaseTimeout:
+                    raise
+                except Exception:
+                    pass
             try:
                 m = svg.Matrix(s, ppi=96.0)
             except engine.CaseTimeout:
@@ -249,7 +258,24 @@ def check_case(case):
                 continue
             d = cmp_matrix(m, val, "ops %s" % ([(o, f[0] if f else "") for o, f in hist],))
             d += identity_test(m, val, "ops %s" % ([(o, f[0] if f else "") for o, f in hist],))
-            if not d:
+            try:
+                d += point_checks(m, d, hist, px, py, alt)
+            except engine.CaseTimeout:
+                raise
+            except Exception as e:
+                d.append({"clause": "Raises", "detail": "applying the matrix after %s raised %s: %s" % (hist, type(e).__name__, str(e)[:60])})
+            dis += d
+        cls = "ops:" + ">".join("%s_%s" % (o, f[0] if f else "") for o, f in hist)
+        for x in dis:
+            x["ops"] = [o + ("_" + f[0] if f else "") for o, f in hist]
+    return {"dis": dis, "nontrivial": len(hist) >= 2, "class": cls, "checked": ["Entry", "PointImage"]}
+
+
+def point_checks(m, d0, hist, px, py, alt):
+    d = []
+    if True:
+        if True:
+            if not d0:
                 p = svg.Point(3, -7) * m
                 if abs(p.x - px) > 1e-9 * max(1, abs(px)) or abs(p.y - py) > 1e-9 * max(1, abs(py)):
                     d.append({"clause": "PointImage", "detail": "Point(3,-7) * M after %s = %r, expected (%r, %r)" % (hist, p, px, py)})
@@ -265,11 +291,7 @@ def check_case(case):
                         q = m.point_in_inverse_space((px, py))
                         if abs(q[0] - 3) > 1e-7 * max(1, abs(px), abs(py)) / abs(det) or abs(q[1] + 7) > 1e-7 * max(1, abs(px), abs(py)) / abs(det):
                             d.append({"clause": "PointImage", "detail": "point_in_inverse_space of the image after %s = %r, expected (3, -7)" % (hist, q)})
-            dis += d
-        cls = "ops:" + ">".join("%s_%s" % (o, f[0] if f else "") for o, f in hist)
-        for x in dis:
-            x["ops"] = [o + ("_" + f[0] if f else "") for o, f in hist]
-    return {"dis": dis, "nontrivial": len(hist) >= 2, "class": cls, "checked": ["Entry", "PointImage"]}
+    return d
 
 
 def cases_from_dump(path, seed):
